@@ -510,6 +510,7 @@ def check_property(prop, tier, units, specs, rebaseline=False, only_unit=None, s
     for hit, oid in known_hits:
         lines.append("KNOWN-FINDING: property=%s %s [%s]" % (prop, hit.get("what", ""), oid))
     seen = set()
+    used_kani_cex = False
     for uname, q, oid, fl in violations:
         if oid in seen:
             continue
@@ -522,13 +523,23 @@ def check_property(prop, tier, units, specs, rebaseline=False, only_unit=None, s
                       failing_input=None, note="obligation discharged on the baseline tree and failing now")
         cex = None
         try:
-            cex = kani_mod.counterexample_for(prop, q, fl, seed=seed) if tier == "thorough" or os.environ.get("VERIF_CEX") else None
+            # a paired loop-free / small-domain Kani harness on the REAL function (kani/harnesses.json "pairs": the PER primitives) looks for a
+            # concrete input and confirms it with a native `cargo test` of the same reference assertion; 10-120 s, only run on a violation
+            paired = q in kani_mod.registry().get("pairs", {})
+            if (tier == "thorough" or os.environ.get("VERIF_CEX") or paired) and not os.environ.get("VERIF_NO_CEX"):
+                cex = kani_mod.counterexample_for(prop, q, fl, seed=seed)
         except Exception as e:
             replay["cex_error"] = repr(e)
         tail = " no-failing-input-found"
         if cex and cex.get("confirmed"):
+            # (the input is found per FUNCTION: it refutes the function's reference specification, which obligation of the function it
+            # belongs to is told by kani_failed_checks)
             replay["failing_input"] = cex
+            replay["failing_input_scope"] = "function-level: Kani refuted the reference specification of %s on this input; see kani_failed_checks" % q
+            used_kani_cex = True
             tail = ""
+        elif cex:
+            replay["failing_input_search"] = {k_: v_ for k_, v_ in cex.items() if k_ in ("confirmed", "error", "harness", "kani_failed_checks", "wall_s")}
         json.dump(replay, open(rp, "w"), indent=1)
         lines.append("VIOLATION property=%s replay=%s obligation=%s%s" % (prop, rp, oid.replace(" ", "_")[:160], tail))
         rc = 1
@@ -547,7 +558,7 @@ def check_property(prop, tier, units, specs, rebaseline=False, only_unit=None, s
                             trusted_base=trusted, samples=samples or [dict(note="no obligations")],
                             explanation=meta.get("scope", ""), functions_under_contract=fn_reports,
                             rewrites=sorted(set(rewrites)), unverified=unverified_notes, bounded=bounded, solver_stability=stability, sensitivity_selftest=selftest_res,
-                            solver_s=round(solver_us / 1e6, 3), backends=["verus 0.2026.09.13 / z3"] + (["kani 0.68 / cbmc"] if bounded else []),
+                            solver_s=round(solver_us / 1e6, 3), backends=["verus 0.2026.09.13 / z3"] + (["kani 0.68 / cbmc"] if (bounded or used_kani_cex) else []),
                             known_findings=[dict(what=h.get("what"), obligation=o) for h, o in known_hits], known_findings_of_other_properties_on_the_call_path=foreign_known,
                             undecided=undecided, exhaustive=False),
               assumptions=meta.get("assumptions", []) + ["machine arithmetic is checked as fixed-width (overflow = failed obligation), not treated as mathematical"],
